@@ -808,6 +808,35 @@ class Repo:
         self.__dict__['_records'] = out
         return out
 
+    def record_constants(self):
+        """module-level names bound once to a record built from constants
+        (``_KEEP = Policy(1, 0, False)``): name -> the constructor call"""
+        if '_record_constants' in self.__dict__:
+            return self.__dict__['_record_constants']
+        recs = self.records()
+        out, seen = {}, {}
+        for mod in self.modules.values():
+            for st in mod['tree'].body:
+                if isinstance(st, ast.Assign):
+                    for t in st.targets:
+                        if isinstance(t, ast.Name):
+                            seen[t.id] = seen.get(t.id, 0) + 1
+                    v = st.value
+                    if len(st.targets) == 1 and isinstance(st.targets[0], ast.Name) and isinstance(v, ast.Call) and isinstance(v.func, ast.Name) and v.func.id in recs \
+                            and all(isinstance(a, ast.Constant) for a in v.args) and all(k.arg and isinstance(k.value, ast.Constant) for k in v.keywords):
+                        out[st.targets[0].id] = v
+                elif isinstance(st, (ast.ClassDef, ast.FunctionDef)):
+                    seen[st.name] = seen.get(st.name, 0) + 1
+        # nothing in the package rebinds the name (global statement)
+        for fi in self.functions.values():
+            for n in ast.walk(fi.node):
+                if isinstance(n, ast.Global):
+                    for nm in n.names:
+                        out.pop(nm, None)
+        out = {k: v for k, v in out.items() if seen.get(k) == 1}
+        self.__dict__['_record_constants'] = out
+        return out
+
     def walker(self, inline_depth=0, max_paths=4096, recv_types=None, fold=None, tag=None, keep=None, split_ifexp=False):
         sent = self.private_sentinels()
         makers = self.function_makers()
@@ -902,6 +931,7 @@ class Repo:
         w.class_tables = self.class_tables
         w.module_sequences = self.module_sequences
         w.records = self.records()
+        w.record_consts = self.record_constants()
         w.split_ifexp = split_ifexp
         return w
 
